@@ -260,6 +260,9 @@ struct Inner {
     hold: bool,
     /// Number of events read from the handle so far.
     events_read: usize,
+    /// The user reads one event per scheduling round (after `release` / a `burst`): a coordinator that was
+    /// suspended on the full channel finds it full again at its next send.
+    slow: bool,
 }
 
 /// Remote end of an inbound substream.
@@ -571,6 +574,7 @@ impl Inner {
             providing: Vec::new(),
             hold: false,
             events_read: 0,
+            slow: false,
         }
     }
 
@@ -616,6 +620,7 @@ impl Inner {
     fn read_events(&mut self) {
         while let Some(Some(event)) = self.handle.next().now_or_never() {
             self.events_read += 1;
+            let slow = self.slow;
             let terminal = match &event {
                 KademliaEvent::FindNodeSuccess { query_id, .. } => Some((query_id.0, "FindNodeSuccess")),
                 KademliaEvent::GetRecordSuccess { query_id } => Some((query_id.0, "GetRecordSuccess")),
@@ -656,6 +661,9 @@ impl Inner {
             if let Some((q, kind)) = terminal {
                 self.effects.push(format!("ev:{kind}:{q}"));
                 self.ledger.push((q, kind.to_string()));
+            }
+            if slow {
+                break;
             }
         }
     }
@@ -1122,13 +1130,22 @@ impl Inner {
     /// `release [<primitive>]`: the primitive runs while the user still does not read; then the user reads
     /// everything (the coordinator, possibly suspended on the full event channel, runs on).
     async fn release(&mut self, t: &[&str]) -> Option<String> {
-        let head = if t.is_empty() { "ok".to_string() } else { self.head(t).await? };
+        let head = match t {
+            [] => "ok".to_string(),
+            ["burst", n, rest @ ..] => {
+                let n = n.parse::<usize>().ok().filter(|n| (1..=6000).contains(n) && !rest.is_empty())?;
+                self.issue(n, rest).await?
+            }
+            _ => self.head(t).await?,
+        };
         for _ in 0..ROUNDS {
             tokio::task::yield_now().await;
             self.pump();
         }
         self.hold = false;
+        self.slow = true;
         self.quiesce().await;
+        self.slow = false;
         Some(format!("{head} {}", self.finish()))
     }
 
@@ -1138,12 +1155,28 @@ impl Inner {
     async fn burst(&mut self, n: usize, t: &[&str]) -> Option<String> {
         let held = self.hold;
         self.hold = true;
+        let Some(heads) = self.issue(n, t).await else {
+            self.hold = held;
+            return None;
+        };
+        for _ in 0..ROUNDS {
+            tokio::task::yield_now().await;
+            self.pump();
+        }
+        self.hold = held;
+        self.slow = true;
+        self.quiesce().await;
+        self.slow = false;
+        Some(format!("{heads} {}", self.finish()))
+    }
+
+    /// The primitive `n` times back to back (three scheduling rounds after each, nothing is read or observed).
+    async fn issue(&mut self, n: usize, t: &[&str]) -> Option<String> {
         let mut heads = Vec::new();
         for _ in 0..n {
             match self.head(t).await {
                 Some(head) => heads.push(head),
                 None => {
-                    self.hold = held;
                     if heads.is_empty() {
                         return None;
                     }
@@ -1155,13 +1188,7 @@ impl Inner {
                 tokio::task::yield_now().await;
             }
         }
-        for _ in 0..ROUNDS {
-            tokio::task::yield_now().await;
-            self.pump();
-        }
-        self.hold = held;
-        self.quiesce().await;
-        Some(format!("{} {}", compress_heads(&heads), self.finish()))
+        Some(compress_heads(&heads))
     }
 
     /// The operation itself (no scheduling round, no observation); `None` = unparseable.
